@@ -9,7 +9,9 @@ RULE = ("random closed programs of the object language with nested grad / forwar
         "variables, value-steered branches; plus a systematic closure family (one binary primitive - operators and a "
         "primitive whose raw function only accepts plain numbers - on every ordered pair of arguments from "
         "{y, x, y*x, x*y, y+x, F(y), const} under all four mode pairings, and depth-3 variants); distinct by program "
-        "text, non-trivial when the nesting depth of differential operators is >= 2")
+        "text, non-trivial when the nesting depth of differential operators is >= 2; plus programs in which an inner "
+        "differentiation fails and is caught by the enclosing differentiated function before another inner differentiation, "
+        "and programs whose inner differential operators run on worker threads (closing over the outer thread's traced values)")
 TRUST = ["the formal function F and its derivative family are realised in Python as user primitives F[n](x) = d^n/dx^n x^6"]
 ASSUMPTIONS = ["scalar-valued programs over +,-,*,neg and one formal smooth function with its derivative family",
                "float64 arithmetic is exact on the generated integer data (larger cases are skipped)"]
@@ -30,6 +32,15 @@ def run(res, tier, seed, broken):
     bad, tie = bad + b2, tie + t2
     if e2:
         broken = broken + [{"obligation": "implementation side failed to run", "log": e2[-3000:]}]
+
+    # an inner differentiation that fails and is caught by the enclosing differentiated function, followed by
+    # another inner differentiation (stale trace-id state), and inner differentiations run on worker threads
+    for tag, sd, n, o in (("c08_faults", seed + 3, 1500 if big else 250, {"maxd": 3, "fail": True}),
+                          ("c08_threads", seed + 4, 1000 if big else 200, {"maxd": 3, "thread": 0.6})):
+        b3, t3, e3 = l2.run_programs(res, tag, sd, n, o, min_ddepth=2)
+        bad, tie = bad + b3, tie + t3
+        if e3:
+            broken = broken + [{"obligation": "implementation side failed to run", "log": e3[-3000:]}]
 
     def hunt():
         for k in range(8 if big else 3):
